@@ -927,7 +927,7 @@ def as_seq(x):
     if isinstance(x, SSeq):
         return x
     if hasattr(x, "_pyvc_sarr"):
-        return SSeq(x.shape[0], lambda k: x[k], None)
+        return SSeq(x.shape[0], lambda k: x.row(k), None)
     if isinstance(x, np.ndarray):
         lst = [x[i] for i in range(x.shape[0])]
         return SSeq(len(lst), lambda k: _pick(lst, k))
@@ -1183,6 +1183,34 @@ class SArr:
             return self.copy()
         raise OutOfReach("flatten of 2-D symbolic array")
 
+    def argsort(self):
+        """trusted: a.argsort() is a permutation `order` of 0..n-1 with a[order] non-decreasing"""
+        if self.ndim != 1:
+            raise OutOfReach("argsort of 2-D symbolic array")
+        c = cur()
+        n = self.shape[0]
+        f = c.fresh_fun("order", [I], I)
+        inv = c.fresh_fun("order_inv", [I], I)
+        k, j = z3.Int("k!as"), z3.Int("j!as")
+        nt = _term(n)
+        g = self._cell[0]
+        c.quiet += 1
+        try:
+            ak = _term(to_real(g(SI(f(k)))))
+            aj = _term(to_real(g(SI(f(j)))))
+        finally:
+            c.quiet -= 1
+        c.assume(SB(z3.ForAll([k], z3.Implies(z3.And(0 <= k, k < nt), z3.And(0 <= f(k), f(k) < nt, inv(f(k)) == k)),
+                              patterns=[f(k)])))
+        c.assume(SB(z3.ForAll([k], z3.Implies(z3.And(0 <= k, k < nt), z3.And(0 <= inv(k), inv(k) < nt, f(inv(k)) == k)),
+                              patterns=[inv(k)])))
+        c.assume(SB(z3.ForAll([k, j], z3.Implies(z3.And(0 <= k, k < j, j < nt), ak <= aj),
+                              patterns=[z3.MultiPattern(f(k), f(j))])))
+        r = SArr((n, ), lambda q: wrap(f(_term(q))), "int")
+        r.perm_inverse = lambda q: wrap(inv(_term(q)))
+        c.ghost["argsort_result"] = r
+        return r
+
     def tolist(self):
         if self.ndim == 1:
             g = self._cell[0]
@@ -1291,6 +1319,23 @@ def subst_val(v, k, q):
     import enum
     if isinstance(v, enum.Enum):
         return v
+    if isinstance(v, SSeq):
+        g = v._get
+        r = SSeq(subst_val(v._len, k, q) if is_sym(v._len) else v._len,
+                 lambda j, g=g: subst_val(g(j), k, q), v.elem_kind, v.name)
+        return r
+    if isinstance(v, SArr):
+        g = v._cell[0]
+        shp = tuple(subst_val(d, k, q) if is_sym(d) else d for d in v.shape)
+        return SArr(shp, lambda j, g=g: subst_val(g(j), k, q), v.kind)
+    if isinstance(v, dict):
+        return {kk: subst_val(x, k, q) for kk, x in v.items()}
+    if hasattr(v, "__dict__") and type(v).__module__.startswith("evo."):
+        # an object of a repo class built for the generic element: same fields, re-indexed
+        o = object.__new__(type(v))
+        for f, x in v.__dict__.items():
+            o.__dict__[f] = subst_val(x, k, q)
+        return o
     raise OutOfReach("comprehension element of type %s cannot be re-indexed" % type(v).__name__)
 
 
